@@ -54,6 +54,7 @@ type Path struct {
 	Mem     map[string]memEntry
 	Blocks  []int
 	Next    map[string]*Term // on arrival at a header: value flowing into each of its phis
+	PrePath *Path            // for a segment started at a header: the path whose arrival seeded it
 }
 
 func (p *Path) AtomString() string {
@@ -148,15 +149,19 @@ const (
 
 type Exec struct {
 	fset     *token.FileSet
+	dir      string
 	Policy   func(fn *ssa.Function) Policy
 	MaxDepth int
 	MaxPaths int
 	// TraceLoad, when set, makes loads from the selected addresses visible as
 	// "load" effects (used by the lock typestate rules).
 	TraceLoad func(addr *Term) bool
-	act       int
-	npaths    int
-	Problems  []string
+	// TraceBounds makes every index and slice operation visible as a
+	// "bounds" effect (used by the bounds rules).
+	TraceBounds bool
+	act         int
+	npaths      int
+	Problems    []string
 }
 
 func (x *Exec) problem(format string, a ...any) {
@@ -168,7 +173,7 @@ func (x *Exec) at(pos token.Pos) string {
 		return "-"
 	}
 	p := x.fset.Position(pos)
-	f := strings.TrimPrefix(p.Filename, "/repo/")
+	f := strings.TrimPrefix(p.Filename, x.dir+"/")
 	return fmt.Sprintf("%s:%d", f, p.Line)
 }
 
@@ -203,10 +208,11 @@ func loopHeaders(fn *ssa.Function) map[*ssa.BasicBlock]bool {
 func hasLoop(fn *ssa.Function) bool { return len(loopHeaders(fn)) > 0 }
 
 type arrival struct {
-	hdr *ssa.BasicBlock
-	fr  *frame
-	st  *state
-	pre *ssa.BasicBlock
+	hdr  *ssa.BasicBlock
+	fr   *frame
+	st   *state
+	pre  *ssa.BasicBlock
+	path *Path
 }
 
 // Summarize enumerates the path segments of fn. For an acyclic function there
@@ -228,11 +234,11 @@ func (x *Exec) Summarize(fn *ssa.Function) []*Path {
 	root := &frame{fn: fn, env: map[ssa.Value]*Term{}, act: 0}
 	st := &state{mem: map[string]memEntry{}, fresh: map[string]bool{}}
 
-	var run func(start string, pre, preAt, preEff int, fr *frame, st *state, b, pred *ssa.BasicBlock, first bool)
-	run = func(start string, pre, preAt, preEff int, fr *frame, st *state, b, pred *ssa.BasicBlock, first bool) {
+	var run func(start string, pre, preAt, preEff int, fr *frame, st *state, b, pred *ssa.BasicBlock, first bool, prePath *Path)
+	run = func(start string, pre, preAt, preEff int, fr *frame, st *state, b, pred *ssa.BasicBlock, first bool, prePath *Path) {
 		finish := func(st *state, end string, rets []*Term, back bool) *Path {
 			x.npaths++
-			p := &Path{Fn: fn, Start: start, Pre: pre, PreAt: preAt, PreEff: preEff, Atoms: st.atoms, Effects: st.effects, Rets: rets, End: end, Back: back, Mem: st.mem, Blocks: st.blocks}
+			p := &Path{Fn: fn, Start: start, Pre: pre, PreAt: preAt, PreEff: preEff, Atoms: st.atoms, Effects: st.effects, Rets: rets, End: end, Back: back, Mem: st.mem, Blocks: st.blocks, PrePath: prePath}
 			out = append(out, p)
 			return p
 		}
@@ -257,13 +263,13 @@ func (x *Exec) Summarize(fn *ssa.Function) []*Path {
 				}
 			}
 			if !back {
-				pending = append(pending, arrival{hdr: h, fr: fr, st: st, pre: from})
+				pending = append(pending, arrival{hdr: h, fr: fr, st: st, pre: from, path: pa})
 			}
 		}, func(st *state, rets []*Term, kind string) {
 			finish(st, kind, rets, false)
 		})
 	}
-	run("entry", 0, 0, 0, root, st, fn.Blocks[0], nil, false)
+	run("entry", 0, 0, 0, root, st, fn.Blocks[0], nil, false, nil)
 	for len(pending) > 0 {
 		a := pending[0]
 		pending = pending[1:]
@@ -292,7 +298,7 @@ func (x *Exec) Summarize(fn *ssa.Function) []*Path {
 			}
 			fr.env[phi] = &Term{Op: "loopphi", Name: fmt.Sprintf("%s@hdr%d", name, a.hdr.Index), Type: phi.Type()}
 		}
-		run(fmt.Sprintf("hdr%d", a.hdr.Index), preIdx, len(st.atoms), len(st.effects), fr, st, a.hdr, a.pre, true)
+		run(fmt.Sprintf("hdr%d", a.hdr.Index), preIdx, len(st.atoms), len(st.effects), fr, st, a.hdr, a.pre, true, a.path)
 		if x.MaxPaths > 0 && x.npaths > x.MaxPaths {
 			x.problem("path budget exceeded in %s", funcName(fn))
 			break
@@ -612,8 +618,18 @@ func (x *Exec) simple(fr *frame, ins ssa.Instruction, st *state) {
 		fr.env[v] = ft
 	case *ssa.IndexAddr:
 		fr.env[v] = &Term{Op: "iaddr", Args: []*Term{x.val(fr, v.X), x.val(fr, v.Index)}, Type: v.Type()}
+		if x.TraceBounds {
+			b := x.val(fr, v.X)
+			b.Type = v.X.Type()
+			eff("bounds", "index", b, x.val(fr, v.Index))
+		}
 	case *ssa.Index:
 		fr.env[v] = &Term{Op: "index", Args: []*Term{x.val(fr, v.X), x.val(fr, v.Index)}, Type: v.Type()}
+		if x.TraceBounds {
+			b := x.val(fr, v.X)
+			b.Type = v.X.Type()
+			eff("bounds", "index", b, x.val(fr, v.Index))
+		}
 	case *ssa.UnOp:
 		a := x.val(fr, v.X)
 		switch v.Op {
@@ -687,6 +703,17 @@ func (x *Exec) simple(fr *frame, ins ssa.Instruction, st *state) {
 		eff("store", "store", a, val)
 	case *ssa.Slice:
 		base := x.val(fr, v.X)
+		if x.TraceBounds && !(base.Op == "alloc" && v.Low == nil && v.High == nil) {
+			o := func(s ssa.Value) *Term {
+				if s == nil {
+					return constTerm("_")
+				}
+				return x.val(fr, s)
+			}
+			b := *base
+			b.Type = v.X.Type()
+			eff("bounds", "slice", &b, o(v.Low), o(v.High), o(v.Max))
+		}
 		// composite literal / variadic packing: new [N]T; stores; slice [:]
 		if base.Op == "alloc" && v.Low == nil && v.High == nil && v.Max == nil {
 			if pt, ok := v.X.Type().Underlying().(*types.Pointer); ok {
